@@ -622,13 +622,39 @@ func e2eMain(t *testing.T, mode int) {
 			line(b, rb)
 		}
 	}
+	// C20 two-exporter scenario (e2e_two_test.go): roles C and D; p = nil: the partner is regenerated from s.pseed;
+	// only = role whose line is wanted (0 = both)
+	emitTwo := func(s, p *e2eScenario, only byte) {
+		if mode != 20 {
+			return
+		}
+		if p == nil {
+			p = e2eTwoPartner(s)
+		}
+		c, d := s, p
+		if s.role == 'D' {
+			c, d = p, s
+		}
+		rc, rd, ok := w.runTwo(c, d)
+		if !ok {
+			return
+		}
+		if only != 'D' {
+			out.Line("%s => %s", c.prefix(kind), rc.obs20(c))
+		}
+		if only != 'C' {
+			out.Line("%s => %s", d.prefix(kind), rd.obs20(d))
+		}
+	}
 	if rp := vReplayLines(); rp != nil {
 		for _, f := range rp {
 			if f[0] != kind {
 				continue
 			}
 			if s, ok := e2eParseScenario(f); ok {
-				if s.role != 0 {
+				if e2eIsTwoRole(s.role) {
+					emitTwo(s, nil, s.role)
+				} else if s.role != 0 {
 					emitIlv(s, s.role)
 				} else {
 					emit(s)
@@ -641,6 +667,18 @@ func e2eMain(t *testing.T, mode int) {
 	n := vN(300)
 	for _, s := range e2eWitnesses(mode) {
 		emit(s)
+	}
+	if mode == 20 {
+		// two exporters of one kind, constructed one after the other before the first is used: the fixed C20-9 shapes,
+		// then random pairs for all six exporters
+		for _, pr := range e2eTwoWitnesses() {
+			emitTwo(pr[0], pr[1], 0)
+		}
+		rt := &vRand{s: vSeed() ^ 0x7e02}
+		for i, k := 0, 60+n/6; i < k; i++ {
+			c, d := e2eGenTwo(rt, e2eExps[i%len(e2eExps)])
+			emitTwo(c, d, 0)
+		}
 	}
 	if mode != 20 {
 		// interleaved exporters: a fixed share at the start of the run (GOMAXPROCS(1), GC off while they run)
